@@ -13,10 +13,10 @@ def ref_count_() -> Callable[[ConnectableObservable[_T]], Observable[_T]]:
     observable sequence.
     """
 
-    connectable_subscription: abc.DisposableBase | None = None
-    count = 0
-
     def ref_count(source: ConnectableObservable[_T]) -> Observable[_T]:
+        connectable_subscription: abc.DisposableBase | None = None
+        count = 0
+
         def subscribe(
             observer: abc.ObserverBase[_T],
             scheduler: abc.SchedulerBase | None = None,
